@@ -148,3 +148,84 @@ func VerifC02Send() {
 		lib.VerifReach("delivered to the fallback")
 	}
 }
+
+// VerifC03PrioritySites: every code site that maps a priority to a mailbox queue - the process API
+// (Send to itself by pid / name / alias, Send to another process, SendWithPriority, Forward, events)
+// and the request path - puts the message into urgent for Max, system for High and main otherwise,
+// for every value of the priority, so that messages of one sender and one priority share one FIFO
+// whichever addressing mode is used.
+func VerifC03PrioritySites() {
+	site := lib.VerifShard("site", 8)
+	lib.VerifClockAdvance(0)
+	n := vfNode()
+	p, _ := vfProc(n, 2000, "me", gen.ProcessStateRunning, 0)
+	alias, err := p.CreateAlias()
+	lib.VerifAssert(err == nil, "setup: alias")
+	other, _ := vfProc(n, 2001, "other", gen.ProcessStateRunning, 0)
+	prio := gen.MessagePriority(lib.VerifInt("priority"))
+	target := p
+	if site == 3 || site == 5 || site == 6 || site == 7 {
+		target = other
+	}
+	before := c02Lens(target)
+	useProcessPriority := func() bool {
+		// the process API only takes the three defined priorities
+		if prio != gen.MessagePriorityNormal && prio != gen.MessagePriorityHigh && prio != gen.MessagePriorityMax {
+			lib.VerifAssert(p.SetSendPriority(prio) == gen.ErrIncorrect, "an undefined priority is refused by SetSendPriority")
+			return false
+		}
+		lib.VerifAssert(p.SetSendPriority(prio) == nil, "a defined priority is accepted")
+		return true
+	}
+	switch site {
+	case 0: // to itself by pid
+		if !useProcessPriority() {
+			return
+		}
+		err = p.SendPID(p.pid, "m")
+	case 1: // to itself by name
+		if !useProcessPriority() {
+			return
+		}
+		err = p.SendProcessID(gen.ProcessID{Name: "me", Node: n.name}, "m")
+	case 2: // to itself by alias
+		if !useProcessPriority() {
+			return
+		}
+		err = p.SendAlias(alias, "m")
+	case 3: // to another process through Send(any)
+		if !useProcessPriority() {
+			return
+		}
+		err = p.Send(other.pid, "m")
+	case 4: // SendWithPriority to itself
+		if prio != gen.MessagePriorityNormal && prio != gen.MessagePriorityHigh && prio != gen.MessagePriorityMax {
+			return
+		}
+		err = p.SendWithPriority(p.pid, "m", prio)
+	case 5: // Forward of a mailbox message
+		m := gen.TakeMailboxMessage()
+		m.Message = "m"
+		err = p.Forward(other.pid, m, prio)
+	case 6: // request routed to a process
+		err = n.RouteCallPID(p.pid, other.pid, gen.MessageOptions{Priority: prio, Ref: n.MakeRef()}, "m")
+	case 7: // event delivery
+		err = n.sendEventMessage(p.pid, other.pid, prio, gen.MessageEvent{Event: gen.Event{Name: "e", Node: n.name}, Message: "m"})
+	}
+	lib.VerifAssert(err == nil, "the message is accepted")
+	after := c02Lens(target)
+	want := 2
+	if prio == gen.MessagePriorityHigh {
+		want = 1
+	} else if prio == gen.MessagePriorityMax {
+		want = 0
+	}
+	for q := 0; q < 4; q++ {
+		d := int64(0)
+		if q == want {
+			d = 1
+		}
+		lib.VerifAssert(after[q]-before[q] == d, "Max goes to the urgent queue, High to the system queue, everything else to the main queue")
+	}
+	lib.VerifReach("priority site checked")
+}
